@@ -739,6 +739,14 @@ def rule_pure(run):
     pure_rule(run, [fi for name, fi in sorted(cls.methods.items()) if name.startswith('write')])
 
 
+def rule_shared(run):
+    run.rule('SHARED', 'module-level tables of defaults holding mutable values are deep-copied into each t2data object; no class-level container '
+             'is filled through self', floor=1)
+    from .shared import default_copy_rule, shared_rule
+    default_copy_rule(run, ['t2data'])
+    shared_rule(run, ['t2data', 't2grids'])
+
+
 def rule_echo(run):
     run.rule('ECHO', 'whether the extra-precision sections are echoed in the main file is a fact about the complete main file: an '
              'echo flag computed from self._sections inside a section handler (while read() is still appending to that list) is '
@@ -789,7 +797,15 @@ def rule_pair(run):
               only=lambda fi, owner: fi.name.startswith('read_') or fi.name in ('__init__', 'add_generator', 'delete_generator', 'clear_generators'))
 
 
+def rule_memo(run):
+    run.rule('MEMO', 'a result remembered between calls (memo dictionary, caching decorator) is keyed by every parameter it depends on', floor=1)
+    from .memo import memo_rule
+    memo_rule(run, ['t2data'])
+
+
 def check(run):
+    run.guarded('MEMO', rule_memo)
+    run.guarded('SHARED', rule_shared)
     run.guarded('ECHO', rule_echo)
     run.guarded('PAIR', rule_pair)
     run.guarded('PURE', rule_pure)
